@@ -50,6 +50,16 @@ mixed() { # $1 = one letter per returned object: c converted (the rule's toVersi
          elif $k == "b" then {}
          else null end]' "$BINDING_CONTEXT_PATH"
 }
+# a leading capital letter: what the hook does besides answering (its other output channels) -
+# M a metric operation that parses but is not valid (the operator fails the run after the hook ended) ·
+# P an object-patch operation that is not valid (the same) · G a valid metric operation (the run is fine)
+mod=""
+case "${item:0:1}" in M|P|G) mod="${item:0:1}"; item="${item:1}" ;; esac
+case "$mod" in
+  M) echo '{"name":"c15_conversions_total","action":"inc","value":1}' >> "$METRICS_PATH" ;;
+  P) echo '{"operation":"Frobnicate","kind":"Thing","name":"t"}' >> "$KUBERNETES_PATCH_PATH" ;;
+  G) echo '{"name":"c15_conversions_total","action":"add","value":1}' >> "$METRICS_PATH" ;;
+esac
 kind="${item:0:1}"; rest="${item:1}"
 case "$kind" in
   x|"") exit 1 ;;
@@ -79,7 +89,13 @@ type c15Req struct {
 	From, Desired string
 	NObjs         int
 	Script        []string
+	Crd           int // the CRD the request is for (0 = things.g.io)
 }
+
+// the CRDs a case may declare conversions for; one hook may serve several of them
+var c15CrdNames = []string{"things.g.io", "gadgets.g.io", "widgets.g.io"}
+
+func c15CrdKey(crd int, rule string) string { return strconv.Itoa(crd) + "|" + rule }
 
 type c15E2E struct {
 	More    []c15Req
@@ -101,6 +117,33 @@ type c15E2E struct {
 	// same point of the next step -> … -> answered. Requests the schedule leaves unfinished are finished
 	// one after the other at the end.
 	Sched []int
+	// Crd[i]: the CRD rule i is declared for (nil = all for CRD 0). The rules of one hook for different
+	// CRDs are different bindings of that hook; the request names its CRD (c15Req.Crd, ReqCrd).
+	Crd    []int
+	ReqCrd int
+	// CrdDesc: a hook lists its bindings for the highest CRD number first
+	CrdDesc bool
+	// Grouped: "<hook>_<binding>_<crd>" -> the binding carries the optional `group` key (its binding
+	// context is still a conversion context: fromVersion, toVersion, review)
+	Grouped map[string]string
+}
+
+func (e *c15E2E) crdOf(i int) int {
+	if i < len(e.Crd) {
+		return e.Crd[i]
+	}
+	return 0
+}
+
+// rulesOf lists the rules declared for one CRD.
+func (e *c15E2E) rulesOf(crd int) []c15Rule {
+	var out []c15Rule
+	for i, rl := range e.Rules {
+		if e.crdOf(i) == crd {
+			out = append(out, rl)
+		}
+	}
+	return out
 }
 
 func c15ObjsTok(ids []string, vers []string) string {
@@ -190,13 +233,14 @@ func (v *c15Env) prepare(qi int, q c15Req) *c15Flight {
 	}
 	body := fmt.Sprintf(`{"apiVersion":"apiextensions.k8s.io/v1","kind":"ConversionReview","request":{"uid":%q,"desiredAPIVersion":%q,"objects":[%s]}}`,
 		uid, q.Desired, strings.Join(objs, ","))
-	params := fmt.Sprintf("rules=%s links=%s to=%s group=%s objs=%s script=%s", c15Rules(v.e.Rules), c15Rules(v.e.Rules),
+	mine := v.e.rulesOf(q.Crd) // the rules declared for the CRD of this request, and only those
+	params := fmt.Sprintf("crd=%s rules=%s links=%s to=%s group=%s objs=%s script=%s", c15CrdNames[q.Crd], c15Rules(mine), c15Rules(mine),
 		c15Tok(q.Desired), c15Group, c15ObjsTok(ids, vers), strings.ReplaceAll(joinStrs(q.Script), ",", ";"))
 	return &c15Flight{qi: qi, q: q, uid: uid, body: body, params: params}
 }
 
 func (v *c15Env) send(f *c15Flight) *httptest.ResponseRecorder {
-	req := httptest.NewRequest(http.MethodPost, "/things.g.io", bytes.NewReader([]byte(f.body)))
+	req := httptest.NewRequest(http.MethodPost, "/"+c15CrdNames[f.q.Crd], bytes.NewReader([]byte(f.body)))
 	req.Header.Set("Content-Type", "application/json")
 	rec := httptest.NewRecorder()
 	v.router.ServeHTTP(rec, req)
@@ -273,7 +317,7 @@ func (v *c15Env) record(f *c15Flight, withOp bool) {
 		entry = strings.ReplaceAll(entry, "@,", "@-,")
 		entry = strings.ReplaceAll(entry, "@]", "@-]")
 		ruleTok := entry[:strings.IndexByte(entry, '[')]
-		if v.owner[ruleTok] != fl[0] {
+		if v.owner[c15CrdKey(f.q.Crd, ruleTok)] != fl[0] {
 			entry = "ran-in-a-hook-or-binding-that-did-not-register-it:" + fl[0] + ":" + entry
 		}
 		handed = append(handed, fl[1])
@@ -281,7 +325,7 @@ func (v *c15Env) record(f *c15Flight, withOp bool) {
 			// the review in the binding context of a run made for this request is another request's
 			c.Note("e2e:a-run-was-handed-another-request")
 		}
-		if v.nonLast[ruleTok] {
+		if v.nonLast[c15CrdKey(f.q.Crd, ruleTok)] {
 			c.Note("e2e:ran-a-rule-of-a-non-last-binding")
 		}
 		inv = append(inv, entry)
@@ -339,35 +383,65 @@ func c15RunE2E(r *Run, c *Case, e c15E2E) {
 		}
 		return 0
 	}
-	bindName := func(h, b int) string { return fmt.Sprintf("conv%d_%d", h, b) }
-	maxBind := 0
+	bindName := func(h, b, crd int) string {
+		if crd == 0 {
+			return fmt.Sprintf("conv%d_%d", h, b)
+		}
+		return fmt.Sprintf("conv%d_%dc%d", h, b, crd)
+	}
+	maxBind, maxCrd := 0, 0
 	for i := range e.Rules {
 		if bindOf(i) > maxBind {
 			maxBind = bindOf(i)
 		}
+		if e.crdOf(i) > maxCrd {
+			maxCrd = e.crdOf(i)
+		}
+	}
+	if maxCrd >= len(c15CrdNames) || e.ReqCrd >= len(c15CrdNames) {
+		c.Inconcl = "generator: CRD number out of range"
+		return
 	}
 	v := &c15Env{c: c, e: e, ctl: ctl, owner: map[string]string{}, nonLast: map[string]bool{}}
+	multiCrdHooks, groupedBindings := 0, 0
 	for h := 0; h < e.NHooks; h++ {
-		// one kubernetesCustomResourceConversion binding per binding number that has rules, all for
-		// the same CRD (the shape of pkg/hook/testdata/hook_manager_conversion_chains/hook.sh)
+		// one kubernetesCustomResourceConversion binding per (binding number, CRD) that has rules: several
+		// bindings of a hook for one CRD (the shape of pkg/hook/testdata/hook_manager_conversion_chains/
+		// hook.sh) and bindings of one hook for different CRDs
 		var bindings []string
-		for b := 0; b <= maxBind; b++ {
-			var convs []string
-			for i, rl := range e.Rules {
-				if e.Owner[i] == h && bindOf(i) == b {
-					convs = append(convs, fmt.Sprintf(`{"fromVersion": %q, "toVersion": %q}`, rl.From, rl.To))
-				}
+		crdsOfHook := map[int]bool{}
+		for ci := 0; ci <= maxCrd; ci++ {
+			crd := ci
+			if e.CrdDesc {
+				crd = maxCrd - ci
 			}
-			if len(convs) > 0 {
-				bindings = append(bindings, fmt.Sprintf(`{"name":%q,"crdName":"things.g.io","conversions":[%s]}`,
-					bindName(h, b), strings.Join(convs, ",")))
+			for b := 0; b <= maxBind; b++ {
+				var convs []string
+				for i, rl := range e.Rules {
+					if e.Owner[i] == h && bindOf(i) == b && e.crdOf(i) == crd {
+						convs = append(convs, fmt.Sprintf(`{"fromVersion": %q, "toVersion": %q}`, rl.From, rl.To))
+					}
+				}
+				if len(convs) > 0 {
+					grp := ""
+					if g := e.Grouped[fmt.Sprintf("%d_%d_%d", h, b, crd)]; g != "" {
+						grp = fmt.Sprintf(`"group":%q,`, g)
+						groupedBindings++
+					}
+					bindings = append(bindings, fmt.Sprintf(`{"name":%q,%s"crdName":%q,"conversions":[%s]}`,
+						bindName(h, b, crd), grp, c15CrdNames[crd], strings.Join(convs, ",")))
+					crdsOfHook[crd] = true
+				}
 			}
 		}
 		if len(bindings) == 0 {
 			continue
 		}
-		if len(bindings) > 1 {
+		if len(bindings) > len(crdsOfHook) {
 			v.splitHooks++
+		}
+		if len(crdsOfHook) > 1 {
+			multiCrdHooks++
 		}
 		settings := ""
 		if h < len(e.Rate) && e.Rate[h] {
@@ -387,11 +461,22 @@ func c15RunE2E(r *Run, c *Case, e c15E2E) {
 	_ = os.WriteFile(filepath.Join(ctl, "log"), nil, 0o644)
 	for i, rl := range e.Rules {
 		for j := range e.Rules {
-			if e.Owner[j] == e.Owner[i] && bindOf(j) > bindOf(i) {
-				v.nonLast[rl.String()] = true
+			if e.Owner[j] == e.Owner[i] && e.crdOf(j) == e.crdOf(i) && bindOf(j) > bindOf(i) {
+				v.nonLast[c15CrdKey(e.crdOf(i), rl.String())] = true
 			}
 		}
-		v.owner[rl.String()] = hookName(e.Owner[i]) + "#" + bindName(e.Owner[i], bindOf(i))
+		v.owner[c15CrdKey(e.crdOf(i), rl.String())] = hookName(e.Owner[i]) + "#" + bindName(e.Owner[i], bindOf(i), e.crdOf(i))
+	}
+	if maxCrd > 0 {
+		c.Note(fmt.Sprintf("e2e:crds=%d", maxCrd+1))
+		if multiCrdHooks > 0 {
+			c.Note("e2e:a-hook-has-conversion-bindings-for-several-crds")
+		} else {
+			c.Note("e2e:several-crds-each-hook-serves-one")
+		}
+	}
+	if groupedBindings > 0 {
+		c.Note("e2e:a-conversion-binding-with-a-group")
 	}
 
 	op, handler, err := shell_operator.VerifC15NewOperator(hooksDir, tmp)
@@ -402,7 +487,7 @@ func c15RunE2E(r *Run, c *Case, e c15E2E) {
 	defer op.VerifC15Stop()
 	v.router = handler.Router
 
-	reqs := append([]c15Req{{e.From, e.Desired, e.NObjs, e.Script}}, e.More...)
+	reqs := append([]c15Req{{e.From, e.Desired, e.NObjs, e.Script, e.ReqCrd}}, e.More...)
 	if e.Sched == nil {
 		for qi, q := range reqs {
 			f := v.prepare(qi, q)
@@ -591,7 +676,7 @@ func c15E2ECorpus(r *Run) {
 		c.Desc = "corpus: one hook declares the up and the down conversions of the CRD in two bindings; up, down and across"
 		c15RunE2E(r, c, c15E2E{Rules: updown, Owner: []int{0, 0, 0, 0, 1}, Bind: []int{0, 0, 1, 1, 0}, NHooks: 2,
 			From: "g.io/v1", Desired: "g.io/v3", NObjs: 2, Script: []string{"k2", "k2"},
-			More: []c15Req{{"g.io/v3", "g.io/v1", 1, []string{"k1", "k1"}}, {"g.io/v1", "g.io/v4", 1, []string{"k1", "k1", "k1"}}}})
+			More: []c15Req{{"g.io/v3", "g.io/v1", 1, []string{"k1", "k1"}, 0}, {"g.io/v1", "g.io/v4", 1, []string{"k1", "k1", "k1"}, 0}}})
 	})
 	r.One(15, func(c *Case, _ *Rng) {
 		c.Desc = "corpus: three bindings of one hook for one CRD, the middle step of the chain is in the first binding"
@@ -618,26 +703,97 @@ func c15E2ECorpus(r *Run) {
 	r.One(30, func(c *Case, _ *Rng) {
 		c.Desc = "corpus: two requests for the same rule in flight: A built, B built, A's hook runs, B's hook runs (the hook is rate limited)"
 		c15RunE2E(r, c, c15E2E{Rules: one, Owner: []int{0}, NHooks: 1, Rate: []bool{true}, From: "g.io/v1", Desired: "g.io/v2", NObjs: 1,
-			Script: []string{"k1"}, More: []c15Req{{"g.io/v1", "g.io/v2", 2, []string{"k2"}}}, Sched: []int{0, 1, 0, 1}})
+			Script: []string{"k1"}, More: []c15Req{{"g.io/v1", "g.io/v2", 2, []string{"k2"}, 0}}, Sched: []int{0, 1, 0, 1}})
 	})
 	r.One(31, func(c *Case, _ *Rng) {
 		c.Desc = "corpus: two requests for the same two-step chain in flight, step by step in turns, B overtakes A at the second step"
 		c15RunE2E(r, c, c15E2E{Rules: two, Owner: []int{0, 1}, NHooks: 2, From: "g.io/v1", Desired: "g.io/v3", NObjs: 2,
-			Script: []string{"k2", "k2"}, More: []c15Req{{"g.io/v1", "g.io/v3", 1, []string{"k1", "k1"}}}, Sched: []int{0, 1, 0, 1, 1, 0}})
+			Script: []string{"k2", "k2"}, More: []c15Req{{"g.io/v1", "g.io/v3", 1, []string{"k1", "k1"}, 0}}, Sched: []int{0, 1, 0, 1, 1, 0}})
 	})
 	r.One(32, func(c *Case, _ *Rng) {
 		c.Desc = "corpus: three requests in flight over one hook with two bindings: v1->v3, v2->v3 (shares the second rule) and v3->v1 (down); the first one fails at step 2 with its own message"
 		c15RunE2E(r, c, c15E2E{Rules: updown, Owner: []int{0, 0, 0, 0, 1}, Bind: []int{0, 0, 1, 1, 0}, NHooks: 2, Rate: []bool{true, false},
 			From: "g.io/v1", Desired: "g.io/v3", NObjs: 2, Script: []string{"k2", "m0:not-me"},
-			More:  []c15Req{{"g.io/v2", "g.io/v3", 1, []string{"k1"}}, {"g.io/v3", "g.io/v1", 3, []string{"k3", "k3"}}},
+			More:  []c15Req{{"g.io/v2", "g.io/v3", 1, []string{"k1"}, 0}, {"g.io/v3", "g.io/v1", 3, []string{"k3", "k3"}, 0}},
 			Sched: []int{0, 1, 2, 0, 2, 1, 0, 2}})
 	})
 	r.One(33, func(c *Case, _ *Rng) {
 		c.Desc = "corpus: a request arrives and is answered while another one for the same rule waits between task built and hook run; then a third one arrives"
 		c15RunE2E(r, c, c15E2E{Rules: one, Owner: []int{0}, NHooks: 1, From: "g.io/v1", Desired: "g.io/v2", NObjs: 2,
-			Script: []string{"k2"}, More: []c15Req{{"g.io/v1", "g.io/v2", 1, []string{"k1"}}, {"g.io/v1", "g.io/v2", 3, []string{"x"}}},
+			Script: []string{"k2"}, More: []c15Req{{"g.io/v1", "g.io/v2", 1, []string{"k1"}, 0}, {"g.io/v1", "g.io/v2", 3, []string{"x"}, 0}},
 			Sched: []int{0, 1, 1, 2, 0, 2}})
 	})
+	// a conversion binding may carry the optional `group` key: its hook still gets a conversion context
+	r.One(40, func(c *Case, _ *Rng) {
+		c.Desc = "corpus: two steps served by one binding that carries a group"
+		c15RunE2E(r, c, c15E2E{Rules: two, Owner: []int{0, 0}, NHooks: 1, From: "g.io/v1", Desired: "g.io/v3", NObjs: 2,
+			Script: []string{"k2", "k2"}, Grouped: map[string]string{"0_0_0": "main"}})
+	})
+	r.One(41, func(c *Case, _ *Rng) {
+		c.Desc = "corpus: three steps, two hooks, the middle step in a binding with a group, the others without; then back down"
+		c15RunE2E(r, c, c15E2E{Rules: updown, Owner: []int{0, 1, 1, 0, 0}, Bind: []int{0, 1, 0, 0, 1}, NHooks: 2,
+			From: "g.io/v1", Desired: "g.io/v4", NObjs: 1, Script: []string{"k1", "k1", "k1"},
+			Grouped: map[string]string{"1_1_0": "middle", "0_0_0": ""},
+			More:    []c15Req{{"g.io/v3", "g.io/v1", 2, []string{"k2", "k2"}, 0}}})
+	})
+	// a hook run can fail after the hook process ended and left a well formed response: its other output
+	// channels (metrics, object patches) are refused by the operator. Such a step has not succeeded.
+	for i, sc := range [][]string{{"Mk2", "k2"}, {"Pk2", "k2"}, {"k2", "Mk2"}, {"Gk2", "Gk2"}, {"Mm0:my-own-message", "k2"}, {"Mpdd", "k2"}} {
+		sc := sc
+		r.One(42+i, func(c *Case, _ *Rng) {
+			c.Desc = "corpus: two steps, two objects; a hook also writes metrics / an object patch (" + strings.Join(sc, " ") +
+				": M a metric operation that is not valid, P a patch operation that is not valid, G a valid metric)"
+			c15RunE2E(r, c, c15E2E{Rules: two, Owner: []int{0, 1}, NHooks: 2, From: "g.io/v1", Desired: "g.io/v3", NObjs: 2, Script: sc})
+		})
+	}
+	// one hook with conversion bindings for several CRDs: every CRD has its own rules
+	r.One(48, func(c *Case, _ *Rng) {
+		c.Desc = "corpus: one hook declares v1>v2 for things.g.io and v1>v2, v2>v3 for gadgets.g.io; gadgets v1->v3, things v1->v3 (no chain), things v1->v2"
+		c15RunE2E(r, c, c15E2E{Rules: []c15Rule{{"v1", "v2"}, {"v1", "v2"}, {"v2", "v3"}}, Crd: []int{0, 1, 1}, Owner: []int{0, 0, 0}, NHooks: 1,
+			ReqCrd: 1, From: "g.io/v1", Desired: "g.io/v3", NObjs: 2, Script: []string{"k2", "k2"},
+			More: []c15Req{{"g.io/v1", "g.io/v3", 1, []string{"k1", "k1"}, 0}, {"g.io/v1", "g.io/v2", 1, []string{"k1"}, 0}}})
+	})
+	r.One(49, func(c *Case, _ *Rng) {
+		c.Desc = "corpus: two hooks share three CRDs, the bindings for the last CRD come first; the chain of widgets.g.io crosses both hooks"
+		c15RunE2E(r, c, c15E2E{Rules: []c15Rule{{"v1", "v2"}, {"v2", "v1"}, {"v2", "v3"}, {"v1", "v2"}, {"g.io/v2", "v3"}, {"v3", "v4"}},
+			Crd: []int{0, 0, 1, 2, 2, 2}, Owner: []int{0, 1, 0, 1, 0, 1}, Bind: []int{0, 0, 0, 1, 0, 0}, NHooks: 2, CrdDesc: true,
+			ReqCrd: 2, From: "g.io/v1", Desired: "g.io/v4", NObjs: 1, Script: []string{"k1", "k1", "k1"},
+			More: []c15Req{{"g.io/v2", "g.io/v3", 2, []string{"k2"}, 1}, {"g.io/v2", "g.io/v1", 1, []string{"k1"}, 0},
+				{"g.io/v1", "g.io/v3", 1, []string{"k1", "k1"}, 0}, {"g.io/v1", "g.io/v3", 1, []string{"k1", "k1"}, 1}}})
+	})
+}
+
+// c15SideChannels: now and then a step also uses the hook's other output channels (see the hook script).
+func c15SideChannels(rng *Rng, sc []string) []string {
+	for i := range sc {
+		switch k := rng.Intn(100); {
+		case k < 7:
+			sc[i] = "M" + sc[i]
+		case k < 12:
+			sc[i] = "P" + sc[i]
+		case k < 20:
+			sc[i] = "G" + sc[i]
+		}
+	}
+	return sc
+}
+
+// c15GroupSome gives some of the bindings of a case the optional `group` key.
+func c15GroupSome(rng *Rng, e *c15E2E) {
+	e.Grouped = map[string]string{}
+	for i := range e.Rules {
+		b := 0
+		if i < len(e.Bind) {
+			b = e.Bind[i]
+		}
+		k := fmt.Sprintf("%d_%d_%d", e.Owner[i], b, e.crdOf(i))
+		if _, ok := e.Grouped[k]; !ok {
+			e.Grouped[k] = ""
+			if rng.Chance(55) {
+				e.Grouped[k] = fmt.Sprintf("grp%d", rng.Intn(2))
+			}
+		}
+	}
 }
 
 // c15MixedItem is a hook answer with one letter per object (see the hook script): mostly converted
@@ -753,6 +909,9 @@ func c15E2ERandom(r *Run) {
 				if rng.Chance(15) {
 					e.Script = append(e.Script, "k1") // never reached unless something is wrong
 				}
+				if rng.Chance(45) {
+					e.Script = c15SideChannels(rng, e.Script)
+				}
 				break
 			}
 		}
@@ -784,7 +943,69 @@ func c15E2ERandom(r *Run) {
 				}
 				sc = append(sc, it)
 			}
-			e.More = append(e.More, c15Req{c15Group + "/" + fa, c15Group + "/" + fb, n, sc})
+			if rng.Chance(25) {
+				sc = c15SideChannels(rng, sc)
+			}
+			e.More = append(e.More, c15Req{c15Group + "/" + fa, c15Group + "/" + fb, n, sc, 0})
+		}
+		// a third of the cases: the hooks also serve one or two other CRDs, each with its own rules over
+		// the same version names; the requests go to any of them
+		if rng.Chance(35) {
+			ncrd := rng.Range(2, 3)
+			mainCrd := rng.Intn(ncrd)
+			e.ReqCrd = mainCrd
+			for range e.Rules {
+				e.Crd = append(e.Crd, mainCrd)
+			}
+			for i := range e.More {
+				e.More[i].Crd = mainCrd
+			}
+			nvAll := len(c15Versions(e.Rules)) + 1
+			if nvAll < 3 {
+				nvAll = 3
+			}
+			if nvAll > len(c15Names) {
+				nvAll = len(c15Names)
+			}
+			for crd := 0; crd < ncrd; crd++ {
+				if crd == mainCrd {
+					continue
+				}
+				seen := map[c15Rule]bool{}
+				for _, rl := range c15RandomGraph(rng, rng.Range(2, nvAll), false) {
+					if !seen[rl] {
+						seen[rl] = true
+						e.Rules = append(e.Rules, rl)
+						e.Crd = append(e.Crd, crd)
+					}
+				}
+				// a request for this CRD: mostly a pair its own rules do not connect but the rules of all
+				// CRDs together might, or any pair
+				own := e.rulesOf(crd)
+				vs := c15Versions(e.Rules)
+				for k := rng.Range(1, 2); k > 0 && len(vs) >= 2 && len(own) > 0; k-- {
+					fa, fb := PickOne(rng, vs), PickOne(rng, vs)
+					for try := 0; try < 20; try++ {
+						cntOwn, _ := c15ShortestCount(own, fa, fb)
+						cntAll, _ := c15ShortestCount(e.Rules, fa, fb)
+						if fa != fb && (try >= 10 || (cntOwn == 0) == (k == 1) && cntAll > 0) {
+							break
+						}
+						fa, fb = PickOne(rng, vs), PickOne(rng, vs)
+					}
+					if fa == fb {
+						continue
+					}
+					n := rng.Range(1, 2)
+					var sc []string
+					for i := 0; i < 6; i++ {
+						sc = append(sc, fmt.Sprintf("k%d", n))
+					}
+					e.More = append(e.More, c15Req{c15Group + "/" + fa, c15Group + "/" + fb, n, sc, crd})
+				}
+			}
+			e.CrdDesc = rng.Chance(50)
+			rng.Shuffle(len(e.More), func(i, j int) { e.More[i], e.More[j] = e.More[j], e.More[i] })
 		}
 		e.NHooks = rng.Range(1, 3)
 		for range e.Rules {
@@ -800,6 +1021,9 @@ func c15E2ERandom(r *Run) {
 			for i := range e.Rules {
 				e.Bind = append(e.Bind, rng.Intn(nb[e.Owner[i]]))
 			}
+		}
+		if rng.Chance(35) {
+			c15GroupSome(rng, &e)
 		}
 		c15RunE2E(r, c, e)
 	})
@@ -864,6 +1088,9 @@ func c15E2EOverlap(r *Run) {
 						fmt.Sprintf("d%d", nobj), fmt.Sprintf("w%d", nobj)})
 				}
 				sc = append(sc, it)
+			}
+			if rng.Chance(20) {
+				sc = c15SideChannels(rng, sc)
 			}
 			return sc
 		}
@@ -935,6 +1162,9 @@ func c15E2EOverlap(r *Run) {
 			for i := range e.Rules {
 				e.Bind = append(e.Bind, rng.Intn(nb[e.Owner[i]]))
 			}
+		}
+		if rng.Chance(25) {
+			c15GroupSome(rng, &e)
 		}
 		for h := 0; h < e.NHooks; h++ {
 			e.Rate = append(e.Rate, rng.Chance(30))
